@@ -199,7 +199,10 @@ Definition disconnect_player_at_frame (p : p2p) (h last_frame : Z) : res p2p :=
     | Some e =>
       let st := fold_left (fun st h' => set_stat st h' (mkcs true (cs_last (nth (Z.to_nat h') st cs_default)))) (ev_handles e) (ps_status p) in
       let p1 := with_remotes (with_status p st) (updz (ps_remotes p) (Z.to_nat ep) (mkev false (ev_status e) (ev_handles e))) in
-      Ok (if last_frame + 1 <? s_current (ps_sync p) then with_disc_frame p1 (last_frame + 1) else p1)
+      (* 8c: several players can drop before the next rollback: keep the earliest frame *)
+      Ok (if last_frame + 1 <? s_current (ps_sync p)
+          then with_disc_frame p1 (if ps_disc_frame p =? NULL then last_frame + 1 else Z.min (ps_disc_frame p) (last_frame + 1))
+          else p1)
     end
   | Some (KSpectator ep) =>
     match nth_error (ps_spectators p) (Z.to_nat ep) with
